@@ -5,14 +5,12 @@ namespace StoneVerif.DeclPy
 
 theorem aliasWF_at {api : Api} (hapi : apiWF api = true) {ns : Namespace} (hns : ns ∈ api.namespaces)
     {pre post : List Alias} {a : Alias} (h : ns.aliases = pre ++ a :: post) :
-    tyOK api ns a.ty = true ∧ (aliasEndsInUser api api.nAliases a.ty = true → fmtClass a.name = a.name)
-      ∧ ∀ n ∈ a.ty.localAliases ns.name, ∃ a' ∈ pre, a'.name = n := by
+    tyOK api ns a.ty = true ∧ ∀ n ∈ a.ty.localAliases ns.name, ∃ a' ∈ pre, a'.name = n := by
   have hw := nsWF_of_apiWF hapi hns
   simp only [nsWF, Bool.and_eq_true] at hw
   have := allWithEarlier_split (aliasWF api ns) ns.aliases [] hw.1.1.1.1.2 pre a post h
-  simp only [List.nil_append, aliasWF, Bool.and_eq_true, Bool.or_eq_true, Bool.not_eq_true', beq_iff_eq] at this
-  refine ⟨this.1.1, fun he => by rcases this.1.2 with h | h; rw [he] at h; exact absurd h (by simp); exact h,
-    fun n hn => ?_⟩
+  simp only [List.nil_append, aliasWF, Bool.and_eq_true] at this
+  refine ⟨this.1, fun n hn => ?_⟩
   have h3 := List.all_eq_true.mp this.2 n hn
   simp only [List.any_eq_true, beq_iff_eq] at h3
   exact h3
